@@ -155,7 +155,12 @@ class RichTraceback:
             if not line:
                 line = ""
             try:
-                line_map, template_lines, template_filename = mods[filename]
+                (
+                    line_map,
+                    template_lines,
+                    template_filename,
+                    template_source,
+                ) = mods[filename]
             except KeyError:
                 try:
                     info = mako.template._get_module_info(filename)
@@ -191,7 +196,12 @@ class RichTraceback:
                 template_lines = [
                     line_ for line_ in template_source.split("\n")
                 ]
-                mods[filename] = (line_map, template_lines, template_filename)
+                mods[filename] = (
+                    line_map,
+                    template_lines,
+                    template_filename,
+                    template_source,
+                )
 
             template_ln = line_map[lineno - 1]
 
